@@ -65,6 +65,12 @@ def build_all(cfg, state):
                 hits = vcore.grep_forbidden(vcore.lean_closure(prop))
                 if hits:
                     problems.append(("proof", "forbidden construct in proof sources: %s" % hits, ""))
+                if state.get("tier") == "thorough":
+                    # independent re-check of the compiled property module (and everything it imports) by leanchecker
+                    rc, out = vcore.run(["lake", "env", "leanchecker", "Emitter.Props." + prop], cwd=LEAN, timeout=1800)
+                    state["leanchecker"] = "ok" if rc == 0 else "failed"
+                    if rc != 0:
+                        problems.append(("proof", "leanchecker rejects Emitter.Props.%s" % prop, out[-3000:]))
             try:
                 vcore.go_build(ov, cfg["harness"], cfg["harness_bin"])
             except BuildError as e:
@@ -121,7 +127,7 @@ def main():
     cfg = load_cfg(prop)
     mod = cfg["mod"]
     known, fixed = vcore.load_known(prop)
-    state = {"obligations": [], "discharged": [], "facts": {}}
+    state = {"obligations": [], "discharged": [], "facts": {}, "tier": tier}
     violations = []          # (line to print)
     known_hit = collections.OrderedDict()
     problems = build_all(cfg, state)
@@ -261,6 +267,7 @@ def main():
             "known_findings_hit": list(known_hit.keys()),
             "regenerated_facts": state["facts"],
             "build_problems": [p[1] for p in problems],
+            "leanchecker": state.get("leanchecker", "not run (thorough tier only)"),
             "source_changes_since_pinned_tree": state.get("source_changes", []),
         },
         "assumptions": list(getattr(mod, "ASSUMPTIONS", [])),
